@@ -756,6 +756,11 @@ class SimpleStreamUpdater(StreamUpdater):
             raise TypeError("replication_nr is not an int")
         if replication_nr < 0:
             raise ValueError("replication_nr < 0")
+        # a reproducible hash of the name: the built-in hash() of a str is
+        # randomized per interpreter process (PYTHONHASHSEED)
+        name_hash = 0
+        for ch in stream_id:
+            name_hash = (31 * name_hash + ord(ch)) & 0xFFFFFFFF
         stream.set_seed(stream.original_seed() + replication_nr * 
-                        (1_000_037 + hash(stream_id)))
+                        (1_000_037 + name_hash))
 
